@@ -399,14 +399,16 @@ fn emit_binary_history(sink: &mut Sink, r: &mut Rng, scratch: &str, bin: &str, s
         if label == "stats-since" && rc == 0 {
             // the delta is taken against the newest entry at or before now - D; none: no delta at all
             let cutoff = now.saturating_sub(since_secs);
-            let sel = before.iter().filter(|e| e.timestamp <= cutoff).max_by_key(|e| e.timestamp);
+            // ("newest" = most recently recorded: the histories let the clock step backwards, and
+            // then the latest recording is not the largest timestamp)
+            let sel = before.iter().rev().find(|e| e.timestamp <= cutoff);
             let v: serde_json::Value = serde_json::from_str(&out).unwrap_or(serde_json::Value::Null);
             let shown = v.get("trend").filter(|t| !t.is_null());
             match (sel, shown, whole) {
                 (None, Some(t), _) => pred = Some(format!("`stats trend --since {since_txt}`: no entry is at or before now - {since_txt}, yet a delta is shown: {t}")),
                 (Some(e), None, _) => pred = Some(format!("`stats trend --since {since_txt}`: the entry of {} is at or before now - {since_txt}, but no delta is shown", e.timestamp)),
                 (Some(e), Some(t), Some(w)) => {
-                    let tie = before.iter().filter(|x| x.timestamp == e.timestamp).count() > 1;
+                    let tie = false;
                     let want = (w.code as i64 - e.code as i64, w.lines as i64 - e.total_lines as i64, w.files as i64 - e.total_files as i64);
                     let got = (t["code"].as_i64().unwrap_or(i64::MIN), t["lines"].as_i64().unwrap_or(i64::MIN), t["files"].as_i64().unwrap_or(i64::MIN));
                     if !tie && got != want {
